@@ -188,6 +188,7 @@ class Facts:
         for lst in self._fns.values():
             for f in lst:
                 if pred is None or pred(f):
+                    self.touched[(f.name, f.file, f.line)] = f
                     yield f
 
     # ---- whole-program index -------------------------------------------------------------
